@@ -369,7 +369,7 @@ func tamperOne(c *hl.Ctx, cs caseT, kind string, keyOf func(field string) string
 	vc.Extra = cs.Part
 	vc.Object, vc.Field, vc.Bit = ser, f, bit
 	if pan {
-		c.Violation("panic/"+panicSite(st), fmt.Sprintf("%s %s/%s/%s size %d %s: flipping bit %d (octet %d, mask %#02x) of the base64url-decoded %q field makes the library panic instead of returning an error: %s. Tampered object: %s",
+		viol(c, "panic/"+panicSite(st), fmt.Sprintf("%s %s/%s/%s size %d %s: flipping bit %d (octet %d, mask %#02x) of the base64url-decoded %q field makes the library panic instead of returning an error: %s. Tampered object: %s",
 			vc.Part, cs.Alg, cs.Enc, cs.Zip, cs.Size, cs.Ser, bit, bit/8, 0x80>>uint(bit%8), f, msg, short(t)), vc)
 		return
 	}
@@ -379,7 +379,7 @@ func tamperOne(c *hl.Ctx, cs caseT, kind string, keyOf func(field string) string
 	}
 	c.Nontrivial(fmt.Sprintf("t/%s/%s/%d/%s/%s/%d/%v/%s/%s/%d", cs.Part, cs.Alg, cs.Curve*2+cs.KeyVar, cs.Enc, cs.Zip, cs.Size, cs.Nil, cs.Ser, f, bit))
 	if accepted {
-		c.Violation(keyOf(f), fmt.Sprintf("%s %s/%s/%s size %d %s: after flipping bit %d (octet %d, mask %#02x) of the base64url-decoded %q field (%d octets) the object is still accepted with the original key (%s); expected an error. Original object: %s",
+		viol(c, keyOf(f), fmt.Sprintf("%s %s/%s/%s size %d %s: after flipping bit %d (octet %d, mask %#02x) of the base64url-decoded %q field (%d octets) the object is still accepted with the original key (%s); expected an error. Original object: %s",
 			vc.Part, cs.Alg, cs.Enc, cs.Zip, cs.Size, cs.Ser, bit, bit/8, 0x80>>uint(bit%8), f, len(o.val[f]), detail, short(ser)), vc)
 	}
 }
@@ -507,49 +507,49 @@ func checkSignedObject(c *hl.Ctx, cs caseT, a sigAlgT, ser string, payload []byt
 	desc := fmt.Sprintf("JWS %s key-variant %d payload %d octets (%s) %s", cs.Alg, cs.KeyVar, len(payload), hl.Hex(payload), cs.Ser)
 	parsed, err := jose.ParseSigned(ser)
 	if err != nil {
-		c.Violation(pre+"/parse", fmt.Sprintf("%s: ParseSigned rejects the library's own serialisation: %v. Object: %s", desc, err, short(ser)), vc)
+		viol(c, pre+"/parse", fmt.Sprintf("%s: ParseSigned rejects the library's own serialisation: %v. Object: %s", desc, err, short(ser)), vc)
 		return false, false
 	}
 	got, err := parsed.Verify(pub)
 	if err != nil {
-		c.Violation(pre+"/verify", fmt.Sprintf("%s: Verify with the right key fails: %v. Object: %s", desc, err, short(ser)), vc)
+		viol(c, pre+"/verify", fmt.Sprintf("%s: Verify with the right key fails: %v. Object: %s", desc, err, short(ser)), vc)
 		return false, false
 	}
 	if !bytes.Equal(got, payload) {
-		c.Violation(pre+"/payload", fmt.Sprintf("%s: Verify returned %d octets %s, expected the original payload. Object: %s", desc, len(got), hl.Hex(got), short(ser)), vc)
+		viol(c, pre+"/payload", fmt.Sprintf("%s: Verify returned %d octets %s, expected the original payload. Object: %s", desc, len(got), hl.Hex(got), short(ser)), vc)
 		return false, false
 	}
 	ok := true
 	if len(parsed.Signatures) != 1 || parsed.Signatures[0].Header.Algorithm != cs.Alg {
-		c.Violation(pre+"/header", fmt.Sprintf("%s: parsed object has %d signatures / algorithm header %q", desc, len(parsed.Signatures), parsed.Signatures[0].Header.Algorithm), vc)
+		viol(c, pre+"/header", fmt.Sprintf("%s: parsed object has %d signatures / algorithm header %q", desc, len(parsed.Signatures), parsed.Signatures[0].Header.Algorithm), vc)
 		ok = false
 	} else if wantJWK {
 		if j := parsed.Signatures[0].Header.JsonWebKey; j == nil || !keyEqual(j.Key, pub) {
-			c.Violation(pre+"/embedded-jwk", fmt.Sprintf("%s: the \"jwk\" header parameter does not parse back to the signer's public key. Object: %s", desc, short(ser)), vc)
+			viol(c, pre+"/embedded-jwk", fmt.Sprintf("%s: the \"jwk\" header parameter does not parse back to the signer's public key. Object: %s", desc, short(ser)), vc)
 			ok = false
 		}
 	}
 	if _, err := parsed.Verify(wrong); err == nil {
-		c.Violation("jws/wrong-key/"+a.family, fmt.Sprintf("%s: Verify succeeds with a different key of the same kind. Object: %s", desc, short(ser)), vc)
+		viol(c, "jws/wrong-key/"+a.family, fmt.Sprintf("%s: Verify succeeds with a different key of the same kind. Object: %s", desc, short(ser)), vc)
 		ok = false
 	}
 	if _, err := parsed.Verify(other); err == nil {
-		c.Violation("jws/wrong-key/"+a.family+"/other-kind", fmt.Sprintf("%s: Verify succeeds with a key of another kind (%T). Object: %s", desc, other, short(ser)), vc)
+		viol(c, "jws/wrong-key/"+a.family+"/other-kind", fmt.Sprintf("%s: Verify succeeds with a key of another kind (%T). Object: %s", desc, other, short(ser)), vc)
 		ok = false
 	}
 	// independent reading of the serialisation
 	o, err := splitObject("jws", ser)
 	if err != nil {
-		c.Violation("ref/jws-serialisation", fmt.Sprintf("%s: %v. Object: %s", desc, err, short(ser)), vc)
+		viol(c, "ref/jws-serialisation", fmt.Sprintf("%s: %v. Object: %s", desc, err, short(ser)), vc)
 		return true, false
 	}
 	if !bytes.Equal(o.val["payload"], payload) {
-		c.Violation("ref/jws-serialisation/payload", fmt.Sprintf("%s: the payload field decodes to %s", desc, hl.Hex(o.val["payload"])), vc)
+		viol(c, "ref/jws-serialisation/payload", fmt.Sprintf("%s: the payload field decodes to %s", desc, hl.Hex(o.val["payload"])), vc)
 		ok = false
 	}
 	var hdr map[string]interface{}
 	if err := json.Unmarshal(o.val["protected"], &hdr); err != nil || hdr["alg"] != cs.Alg {
-		c.Violation("ref/jws-serialisation/header", fmt.Sprintf("%s: protected header %q does not carry alg=%s (%v)", desc, o.val["protected"], cs.Alg, err), vc)
+		viol(c, "ref/jws-serialisation/header", fmt.Sprintf("%s: protected header %q does not carry alg=%s (%v)", desc, o.val["protected"], cs.Alg, err), vc)
 		ok = false
 	}
 	if wantJWK && hdr != nil {
@@ -558,7 +558,7 @@ func checkSignedObject(c *hl.Ctx, cs caseT, a sigAlgT, ser string, payload []byt
 			for _, m := range []string{"x", "y"} {
 				txt, _ := j[m].(string)
 				if b, err := joseref.UnB64(txt); err != nil || len(b) != w {
-					c.Violation(fmt.Sprintf("jwk/ec-width/P-%d", a.curve), fmt.Sprintf("%s: embedded jwk coordinate %s=%q is %d octets, RFC 7518 6.2.1.2 requires %d", desc, m, txt, len(b), w), vc)
+					viol(c, fmt.Sprintf("jwk/ec-width/P-%d", a.curve), fmt.Sprintf("%s: embedded jwk coordinate %s=%q is %d octets, RFC 7518 6.2.1.2 requires %d", desc, m, txt, len(b), w), vc)
 					ok = false
 				}
 			}
@@ -566,7 +566,7 @@ func checkSignedObject(c *hl.Ctx, cs caseT, a sigAlgT, ser string, payload []byt
 	}
 	input := []byte(joseref.B64(o.val["protected"]) + "." + joseref.B64(o.val["payload"]))
 	if err := refVerifyJWS(a, pub, input, o.val["signature"]); err != nil {
-		c.Violation("ref/jws-verify/"+a.family, fmt.Sprintf("%s: independent verification over BASE64URL(protected).BASE64URL(payload) fails: %v. Object: %s", desc, err, short(ser)), vc)
+		viol(c, "ref/jws-verify/"+a.family, fmt.Sprintf("%s: independent verification over BASE64URL(protected).BASE64URL(payload) fails: %v. Object: %s", desc, err, short(ser)), vc)
 		ok = false
 	}
 	return true, ok
@@ -616,11 +616,11 @@ func runJWSCase(c *hl.Ctx, cs caseT) {
 		}
 	})
 	if pan {
-		c.Violation("panic/"+panicSite(st), fmt.Sprintf("JWS %s payload %d octets %s: panic at stage %s: %s", cs.Alg, len(payload), cs.Ser, stage, msg), cs)
+		viol(c, "panic/"+panicSite(st), fmt.Sprintf("JWS %s payload %d octets %s: panic at stage %s: %s", cs.Alg, len(payload), cs.Ser, stage, msg), cs)
 		return
 	}
 	if serr != nil {
-		c.Violation(pre+"/"+stage, fmt.Sprintf("JWS %s key-variant %d payload %d octets %s: %s failed: %v", cs.Alg, cs.KeyVar, len(payload), cs.Ser, stage, serr), cs)
+		viol(c, pre+"/"+stage, fmt.Sprintf("JWS %s key-variant %d payload %d octets %s: %s failed: %v", cs.Alg, cs.KeyVar, len(payload), cs.Ser, stage, serr), cs)
 	}
 }
 
@@ -797,33 +797,33 @@ func checkEncryptedObject(c *hl.Ctx, cs caseT, ser string, payload []byte, priv,
 	desc := fmt.Sprintf("JWE alg=%s enc=%s zip=%q curve=%d key-variant=%d plaintext %d octets (%s) %s", cs.Alg, cs.Enc, cs.Zip, cs.Curve, cs.KeyVar, len(payload), hl.Hex(payload), cs.Ser)
 	parsed, err := jose.ParseEncrypted(ser)
 	if err != nil {
-		c.Violation(pre+"/parse", fmt.Sprintf("%s: ParseEncrypted rejects the library's own serialisation: %v. Object: %s", desc, err, short(ser)), vc)
+		viol(c, pre+"/parse", fmt.Sprintf("%s: ParseEncrypted rejects the library's own serialisation: %v. Object: %s", desc, err, short(ser)), vc)
 		return false, false
 	}
 	got, err := parsed.Decrypt(priv)
 	if err != nil {
-		c.Violation(pre+"/decrypt", fmt.Sprintf("%s: Decrypt with the right key fails: %v. Object: %s", desc, err, short(ser)), vc)
+		viol(c, pre+"/decrypt", fmt.Sprintf("%s: Decrypt with the right key fails: %v. Object: %s", desc, err, short(ser)), vc)
 		return false, false
 	}
 	if !bytes.Equal(got, payload) {
-		c.Violation(pre+"/plaintext", fmt.Sprintf("%s: Decrypt returned %d octets %s, expected the original plaintext. Object: %s", desc, len(got), hl.Hex(got), short(ser)), vc)
+		viol(c, pre+"/plaintext", fmt.Sprintf("%s: Decrypt returned %d octets %s, expected the original plaintext. Object: %s", desc, len(got), hl.Hex(got), short(ser)), vc)
 		return false, false
 	}
 	ok := true
 	if ad := parsed.GetAuthData(); !bytes.Equal(ad, wantAAD(cs)) {
-		c.Violation("jwe/auth-data", fmt.Sprintf("%s: GetAuthData returned %s, the object was encrypted with authenticated data %s", desc, hl.Hex(ad), hl.Hex(wantAAD(cs))), vc)
+		viol(c, "jwe/auth-data", fmt.Sprintf("%s: GetAuthData returned %s, the object was encrypted with authenticated data %s", desc, hl.Hex(ad), hl.Hex(wantAAD(cs))), vc)
 		ok = false
 	}
 	if parsed.Header.Algorithm != cs.Alg {
-		c.Violation(pre+"/header", fmt.Sprintf("%s: parsed algorithm header %q", desc, parsed.Header.Algorithm), vc)
+		viol(c, pre+"/header", fmt.Sprintf("%s: parsed algorithm header %q", desc, parsed.Header.Algorithm), vc)
 		ok = false
 	}
 	if _, err := parsed.Decrypt(wrong); err == nil {
-		c.Violation("jwe/wrong-key/"+a.family, fmt.Sprintf("%s: Decrypt succeeds with a different key of the same kind. Object: %s", desc, short(ser)), vc)
+		viol(c, "jwe/wrong-key/"+a.family, fmt.Sprintf("%s: Decrypt succeeds with a different key of the same kind. Object: %s", desc, short(ser)), vc)
 		ok = false
 	}
 	if _, err := parsed.Decrypt(other); err == nil {
-		c.Violation("jwe/wrong-key/"+a.family+"/other-kind", fmt.Sprintf("%s: Decrypt succeeds with a key of another kind (%T). Object: %s", desc, other, short(ser)), vc)
+		viol(c, "jwe/wrong-key/"+a.family+"/other-kind", fmt.Sprintf("%s: Decrypt succeeds with a key of another kind (%T). Object: %s", desc, other, short(ser)), vc)
 		ok = false
 	}
 	if !refCheck {
@@ -831,12 +831,12 @@ func checkEncryptedObject(c *hl.Ctx, cs caseT, ser string, payload []byte, priv,
 	}
 	o, err := splitObject("jwe", ser)
 	if err != nil {
-		c.Violation("ref/jwe-serialisation", fmt.Sprintf("%s: %v. Object: %s", desc, err, short(ser)), vc)
+		viol(c, "ref/jwe-serialisation", fmt.Sprintf("%s: %v. Object: %s", desc, err, short(ser)), vc)
 		return true, false
 	}
 	if tl := joseref.TagLen(cs.Enc); len(o.val["tag"]) != tl {
 		// one root cause, one key: the authentication tag / ciphertext split
-		c.Violation("ref/cbc-hmac-tag-length", fmt.Sprintf("%s: the serialised Authentication Tag is %d octets (%s) and the ciphertext %d octets; RFC 7518 5.2.3-5.2.5 fix T_LEN = %d octets for %s and RFC 7516 3.x puts exactly that value in the tag field (here the leading %d octets of the tag travel at the end of the ciphertext field, so any other implementation rejects the object). Object: %s",
+		viol(c, "ref/cbc-hmac-tag-length", fmt.Sprintf("%s: the serialised Authentication Tag is %d octets (%s) and the ciphertext %d octets; RFC 7518 5.2.3-5.2.5 fix T_LEN = %d octets for %s and RFC 7516 3.x puts exactly that value in the tag field (here the leading %d octets of the tag travel at the end of the ciphertext field, so any other implementation rejects the object). Object: %s",
 			desc, len(o.val["tag"]), hl.Hex(o.val["tag"]), len(o.val["ciphertext"]), tl, cs.Enc, tl-len(o.val["tag"]), short(ser)), vc)
 		return true, false
 	}
@@ -850,10 +850,10 @@ func checkEncryptedObject(c *hl.Ctx, cs caseT, ser string, payload []byte, priv,
 		rk = fmt.Sprintf("jwk/ec-width/P-%d", cs.Curve)
 	}
 	if err != nil {
-		c.Violation(rk, fmt.Sprintf("%s: the independent RFC 7516/7518 decryption of the serialised object fails (ECDH shared secret has a leading zero octet: %v): %v. Object: %s", desc, zlz, err, short(ser)), vc)
+		viol(c, rk, fmt.Sprintf("%s: the independent RFC 7516/7518 decryption of the serialised object fails (ECDH shared secret has a leading zero octet: %v): %v. Object: %s", desc, zlz, err, short(ser)), vc)
 		ok = false
 	} else if !bytes.Equal(pt, payload) {
-		c.Violation(rk, fmt.Sprintf("%s: the independent decryption yields %s. Object: %s", desc, hl.Hex(pt), short(ser)), vc)
+		viol(c, rk, fmt.Sprintf("%s: the independent decryption yields %s. Object: %s", desc, hl.Hex(pt), short(ser)), vc)
 		ok = false
 	} else {
 		c.Add("ref_decryptions", 1)
@@ -912,11 +912,11 @@ func runJWECase(c *hl.Ctx, cs caseT) {
 		}
 	})
 	if pan {
-		c.Violation("panic/"+panicSite(st), fmt.Sprintf("JWE alg=%s enc=%s zip=%q plaintext %d octets %s: panic at stage %s: %s", cs.Alg, cs.Enc, cs.Zip, len(payload), cs.Ser, stage, msg), cs)
+		viol(c, "panic/"+panicSite(st), fmt.Sprintf("JWE alg=%s enc=%s zip=%q plaintext %d octets %s: panic at stage %s: %s", cs.Alg, cs.Enc, cs.Zip, len(payload), cs.Ser, stage, msg), cs)
 		return
 	}
 	if serr != nil {
-		c.Violation(pre+"/"+stage, fmt.Sprintf("JWE alg=%s enc=%s zip=%q plaintext %d octets %s: %s failed: %v", cs.Alg, cs.Enc, cs.Zip, len(payload), cs.Ser, stage, serr), cs)
+		viol(c, pre+"/"+stage, fmt.Sprintf("JWE alg=%s enc=%s zip=%q plaintext %d octets %s: %s failed: %v", cs.Alg, cs.Enc, cs.Zip, len(payload), cs.Ser, stage, serr), cs)
 	}
 }
 
@@ -934,19 +934,19 @@ func runECDSALoop(c *hl.Ctx, cs caseT) {
 	pan, msg, st := hl.TryStack(func() {
 		signer, err := jose.NewSigner(a.name, priv)
 		if err != nil {
-			c.Violation("jws/roundtrip/ES/new-signer", err.Error(), cs)
+			viol(c, "jws/roundtrip/ES/new-signer", err.Error(), cs)
 			return
 		}
 		for n = 0; n < limit && !(seenR && seenS); n++ {
 			obj, err := signer.Sign(payload)
 			if err != nil {
-				c.Violation("jws/roundtrip/ES/sign", err.Error(), cs)
+				viol(c, "jws/roundtrip/ES/sign", err.Error(), cs)
 				return
 			}
 			c.Add("ecdsa_loop_signatures", 1)
 			sig := obj.Signatures[0].Signature
 			if len(sig) != 2*w {
-				c.Violation("jws/roundtrip/ES/sig-width", fmt.Sprintf("%s signature %s is %d octets, RFC 7518 3.4 requires %d (r and s left-padded to %d octets each)", cs.Alg, hl.Hex(sig), len(sig), 2*w, w), cs)
+				viol(c, "jws/roundtrip/ES/sig-width", fmt.Sprintf("%s signature %s is %d octets, RFC 7518 3.4 requires %d (r and s left-padded to %d octets each)", cs.Alg, hl.Hex(sig), len(sig), 2*w, w), cs)
 				return
 			}
 			r0, s0 := sig[0] == 0, sig[w] == 0
@@ -954,7 +954,7 @@ func runECDSALoop(c *hl.Ctx, cs caseT) {
 				c.Eval()
 				ser, err := obj.CompactSerialize()
 				if err != nil {
-					c.Violation("jws/roundtrip/ES/serialise", err.Error(), cs)
+					viol(c, "jws/roundtrip/ES/serialise", err.Error(), cs)
 					return
 				}
 				vc := cs
@@ -968,7 +968,7 @@ func runECDSALoop(c *hl.Ctx, cs caseT) {
 		}
 	})
 	if pan {
-		c.Violation("panic/"+panicSite(st), "ECDSA loop: "+msg, cs)
+		viol(c, "panic/"+panicSite(st), "ECDSA loop: "+msg, cs)
 		return
 	}
 	c.Info("ecdsa_loop_"+cs.Alg, map[string]interface{}{"signatures": n, "leading_zero_r_seen": seenR, "leading_zero_s_seen": seenS})
@@ -1049,27 +1049,27 @@ func runRefJWS(c *hl.Ctx, cs caseT) {
 	pan, msg, st := hl.TryStack(func() {
 		p, err := jose.ParseSigned(ser)
 		if err != nil {
-			c.Violation("ref/jws-encode/"+a.family+"/parse", fmt.Sprintf("reference-built %s object rejected by ParseSigned: %v. Object: %s", cs.Alg, err, short(ser)), vc)
+			viol(c, "ref/jws-encode/"+a.family+"/parse", fmt.Sprintf("reference-built %s object rejected by ParseSigned: %v. Object: %s", cs.Alg, err, short(ser)), vc)
 			return
 		}
 		got, err := p.Verify(pub)
 		if err != nil || !bytes.Equal(got, payload) {
-			c.Violation("ref/jws-encode/"+a.family+"/verify", fmt.Sprintf("reference-built %s object (payload %s, signature %s, leading-zero case %q) does not verify with the right key: err=%v payload=%s. Object: %s", cs.Alg, hl.Hex(payload), hl.Hex(sig), cs.Extra, err, hl.Hex(got), short(ser)), vc)
+			viol(c, "ref/jws-encode/"+a.family+"/verify", fmt.Sprintf("reference-built %s object (payload %s, signature %s, leading-zero case %q) does not verify with the right key: err=%v payload=%s. Object: %s", cs.Alg, hl.Hex(payload), hl.Hex(sig), cs.Extra, err, hl.Hex(got), short(ser)), vc)
 			return
 		}
 		if _, err := p.Verify(wrong); err == nil {
-			c.Violation("jws/wrong-key/"+a.family, fmt.Sprintf("reference-built %s object verifies with a different key. Object: %s", cs.Alg, short(ser)), vc)
+			viol(c, "jws/wrong-key/"+a.family, fmt.Sprintf("reference-built %s object verifies with a different key. Object: %s", cs.Alg, short(ser)), vc)
 			return
 		}
 		if _, err := p.Verify(other); err == nil {
-			c.Violation("jws/wrong-key/"+a.family+"/other-kind", fmt.Sprintf("reference-built %s object verifies with a key of another kind. Object: %s", cs.Alg, short(ser)), vc)
+			viol(c, "jws/wrong-key/"+a.family+"/other-kind", fmt.Sprintf("reference-built %s object verifies with a key of another kind. Object: %s", cs.Alg, short(ser)), vc)
 			return
 		}
 		c.Nontrivial(fmt.Sprintf("refjws/%s/%d/%d/%s", cs.Alg, cs.KeyVar, cs.Size, cs.Extra))
 		tamperAll(c, vc, "jws", jwsTamperKey(a), ser, cs.Tamper, jwsTry(pub))
 	})
 	if pan {
-		c.Violation("panic/"+panicSite(st), fmt.Sprintf("reference-built %s object: %s. Object: %s", cs.Alg, msg, short(ser)), vc)
+		viol(c, "panic/"+panicSite(st), fmt.Sprintf("reference-built %s object: %s. Object: %s", cs.Alg, msg, short(ser)), vc)
 	}
 }
 
@@ -1143,7 +1143,7 @@ func runRefJWE(c *hl.Ctx, cs caseT) {
 	pan, msg, st := hl.TryStack(func() {
 		p, err := jose.ParseEncrypted(ser)
 		if err != nil {
-			c.Violation("ref/jwe-encode/"+a.family+"/parse", fmt.Sprintf("%s rejected by ParseEncrypted: %v. Object: %s", desc, err, short(ser)), vc)
+			viol(c, "ref/jwe-encode/"+a.family+"/parse", fmt.Sprintf("%s rejected by ParseEncrypted: %v. Object: %s", desc, err, short(ser)), vc)
 			return
 		}
 		got, err := p.Decrypt(priv)
@@ -1154,26 +1154,26 @@ func runRefJWE(c *hl.Ctx, cs caseT) {
 			} else if cs.Extra == "z0" {
 				k = "ref/ecdh-z-leading-zero"
 			}
-			c.Violation(k, fmt.Sprintf("%s: Decrypt with the right key fails: %v. Object: %s", desc, err, short(ser)), vc)
+			viol(c, k, fmt.Sprintf("%s: Decrypt with the right key fails: %v. Object: %s", desc, err, short(ser)), vc)
 			return
 		}
 		if !bytes.Equal(got, payload) {
-			c.Violation("ref/jwe-encode/"+a.family+"/"+encFamily(cs.Enc), fmt.Sprintf("%s: Decrypt returned %s. Object: %s", desc, hl.Hex(got), short(ser)), vc)
+			viol(c, "ref/jwe-encode/"+a.family+"/"+encFamily(cs.Enc), fmt.Sprintf("%s: Decrypt returned %s. Object: %s", desc, hl.Hex(got), short(ser)), vc)
 			return
 		}
 		if _, err := p.Decrypt(wrong); err == nil {
-			c.Violation("jwe/wrong-key/"+a.family, fmt.Sprintf("%s decrypts with a different key. Object: %s", desc, short(ser)), vc)
+			viol(c, "jwe/wrong-key/"+a.family, fmt.Sprintf("%s decrypts with a different key. Object: %s", desc, short(ser)), vc)
 			return
 		}
 		if _, err := p.Decrypt(other); err == nil {
-			c.Violation("jwe/wrong-key/"+a.family+"/other-kind", fmt.Sprintf("%s decrypts with a key of another kind. Object: %s", desc, short(ser)), vc)
+			viol(c, "jwe/wrong-key/"+a.family+"/other-kind", fmt.Sprintf("%s decrypts with a key of another kind. Object: %s", desc, short(ser)), vc)
 			return
 		}
 		c.Nontrivial(fmt.Sprintf("refjwe/%s/%d/%s/%s/%d/%s", cs.Alg, cs.Curve*2+cs.KeyVar, cs.Enc, cs.Zip, cs.Size, cs.Extra))
 		tamperAll(c, vc, "jwe", jweTamperKey(a, cs.Enc), ser, cs.Tamper, jweTry(priv))
 	})
 	if pan {
-		c.Violation("panic/"+panicSite(st), fmt.Sprintf("%s: %s. Object: %s", desc, msg, short(ser)), vc)
+		viol(c, "panic/"+panicSite(st), fmt.Sprintf("%s: %s. Object: %s", desc, msg, short(ser)), vc)
 	}
 }
 
@@ -1198,13 +1198,13 @@ func runMultiJWS(c *hl.Ctx, cs caseT) {
 		ms := jose.NewMultiSigner()
 		for _, r := range recs {
 			if err := ms.AddRecipient(r.a.name, r.priv); err != nil {
-				c.Violation("jws/multi/add", err.Error(), cs)
+				viol(c, "jws/multi/add", err.Error(), cs)
 				return
 			}
 		}
 		obj, err := ms.Sign(payload)
 		if err != nil {
-			c.Violation("jws/multi/sign", err.Error(), cs)
+			viol(c, "jws/multi/sign", err.Error(), cs)
 			return
 		}
 		ser = obj.FullSerialize()
@@ -1212,28 +1212,28 @@ func runMultiJWS(c *hl.Ctx, cs caseT) {
 		vc.Object = ser
 		p, err := jose.ParseSigned(ser)
 		if err != nil {
-			c.Violation("jws/multi/parse", fmt.Sprintf("general JSON serialisation with %d signatures rejected: %v. Object: %s", len(recs), err, short(ser)), vc)
+			viol(c, "jws/multi/parse", fmt.Sprintf("general JSON serialisation with %d signatures rejected: %v. Object: %s", len(recs), err, short(ser)), vc)
 			return
 		}
 		for _, r := range recs {
 			got, err := p.Verify(r.pub)
 			if err != nil || !bytes.Equal(got, payload) {
-				c.Violation("jws/multi/verify/"+r.a.family, fmt.Sprintf("general JSON serialisation with %d signatures, payload %d octets: Verify with the %s key: err=%v payload=%s. Object: %s", len(recs), len(payload), r.a.name, err, hl.Hex(got), short(ser)), vc)
+				viol(c, "jws/multi/verify/"+r.a.family, fmt.Sprintf("general JSON serialisation with %d signatures, payload %d octets: Verify with the %s key: err=%v payload=%s. Object: %s", len(recs), len(payload), r.a.name, err, hl.Hex(got), short(ser)), vc)
 				return
 			}
 		}
 		if _, err := p.Verify(&keys.rsaB.PublicKey); err == nil {
-			c.Violation("jws/wrong-key/multi", "general JSON serialisation verifies with an RSA key that signed nothing. Object: "+short(ser), vc)
+			viol(c, "jws/wrong-key/multi", "general JSON serialisation verifies with an RSA key that signed nothing. Object: "+short(ser), vc)
 			return
 		}
 		if _, err := p.Verify(hl.Pattern(32, 0x32)); err == nil {
-			c.Violation("jws/wrong-key/multi", "general JSON serialisation verifies with an HMAC key that signed nothing. Object: "+short(ser), vc)
+			viol(c, "jws/wrong-key/multi", "general JSON serialisation verifies with an HMAC key that signed nothing. Object: "+short(ser), vc)
 			return
 		}
 		c.Nontrivial(fmt.Sprintf("multijws/%d", cs.Size))
 	})
 	if pan {
-		c.Violation("panic/"+panicSite(st), "multi-signature JWS: "+msg, cs)
+		viol(c, "panic/"+panicSite(st), "multi-signature JWS: "+msg, cs)
 	}
 }
 
@@ -1259,12 +1259,12 @@ func runMultiJWE(c *hl.Ctx, cs caseT) {
 	pan, msg, st := hl.TryStack(func() {
 		me, err := jose.NewMultiEncrypter(jose.ContentEncryption(cs.Enc))
 		if err != nil {
-			c.Violation("jwe/multi/new", err.Error(), cs)
+			viol(c, "jwe/multi/new", err.Error(), cs)
 			return
 		}
 		for _, r := range recs {
 			if err := me.AddRecipient(r.a.name, r.pub); err != nil {
-				c.Violation("jwe/multi/add", err.Error(), cs)
+				viol(c, "jwe/multi/add", err.Error(), cs)
 				return
 			}
 		}
@@ -1273,7 +1273,7 @@ func runMultiJWE(c *hl.Ctx, cs caseT) {
 		}
 		obj, err := me.EncryptWithAuthData(payload, theAAD)
 		if err != nil {
-			c.Violation("jwe/multi/encrypt", err.Error(), cs)
+			viol(c, "jwe/multi/encrypt", err.Error(), cs)
 			return
 		}
 		ser := obj.FullSerialize()
@@ -1281,7 +1281,7 @@ func runMultiJWE(c *hl.Ctx, cs caseT) {
 		vc.Object = ser
 		p, err := jose.ParseEncrypted(ser)
 		if err != nil {
-			c.Violation("jwe/multi/parse", fmt.Sprintf("general JSON serialisation with %d recipients rejected: %v. Object: %s", len(recs), err, short(ser)), vc)
+			viol(c, "jwe/multi/parse", fmt.Sprintf("general JSON serialisation with %d recipients rejected: %v. Object: %s", len(recs), err, short(ser)), vc)
 			return
 		}
 		for _, r := range recs {
@@ -1291,24 +1291,24 @@ func runMultiJWE(c *hl.Ctx, cs caseT) {
 				if strings.HasPrefix(jweKeyPrefix(cs), "jwe/empty-payload/") {
 					k = jweKeyPrefix(cs) + "/decrypt"
 				}
-				c.Violation(k, fmt.Sprintf("general JSON serialisation with %d recipients, enc=%s zip=%q plaintext %d octets: Decrypt with the %s key: err=%v plaintext=%s. Object: %s", len(recs), cs.Enc, cs.Zip, len(payload), r.a.name, err, hl.Hex(got), short(ser)), vc)
+				viol(c, k, fmt.Sprintf("general JSON serialisation with %d recipients, enc=%s zip=%q plaintext %d octets: Decrypt with the %s key: err=%v plaintext=%s. Object: %s", len(recs), cs.Enc, cs.Zip, len(payload), r.a.name, err, hl.Hex(got), short(ser)), vc)
 				return
 			}
 			if r.wrong != nil {
 				if _, err := p.Decrypt(r.wrong); err == nil {
-					c.Violation("jwe/wrong-key/multi", fmt.Sprintf("general JSON serialisation decrypts with a key that is no recipient (%s kind). Object: %s", r.a.kind, short(ser)), vc)
+					viol(c, "jwe/wrong-key/multi", fmt.Sprintf("general JSON serialisation decrypts with a key that is no recipient (%s kind). Object: %s", r.a.kind, short(ser)), vc)
 					return
 				}
 			}
 		}
 		if ad := p.GetAuthData(); !bytes.Equal(ad, theAAD) {
-			c.Violation("jwe/auth-data", fmt.Sprintf("multi-recipient object: GetAuthData %s", hl.Hex(ad)), vc)
+			viol(c, "jwe/auth-data", fmt.Sprintf("multi-recipient object: GetAuthData %s", hl.Hex(ad)), vc)
 			return
 		}
 		c.Nontrivial(fmt.Sprintf("multijwe/%s/%s/%d", cs.Enc, cs.Zip, cs.Size))
 	})
 	if pan {
-		c.Violation("panic/"+panicSite(st), "multi-recipient JWE: "+msg, cs)
+		viol(c, "panic/"+panicSite(st), "multi-recipient JWE: "+msg, cs)
 	}
 }
 
@@ -1362,12 +1362,12 @@ func checkJWK(c *hl.Ctx, k interface{}, kid, alg, use string, cs caseT) {
 		jwk := jose.JsonWebKey{Key: k, KeyID: kid, Algorithm: alg, Use: use}
 		b, err := jwk.MarshalJSON()
 		if err != nil {
-			c.Violation("jwk/roundtrip/"+kind+"/marshal", fmt.Sprintf("%s: MarshalJSON: %v", desc, err), cs)
+			viol(c, "jwk/roundtrip/"+kind+"/marshal", fmt.Sprintf("%s: MarshalJSON: %v", desc, err), cs)
 			return
 		}
 		var m map[string]interface{}
 		if err := json.Unmarshal(b, &m); err != nil {
-			c.Violation("jwk/roundtrip/"+kind+"/marshal", fmt.Sprintf("%s: MarshalJSON output is not JSON: %s", desc, b), cs)
+			viol(c, "jwk/roundtrip/"+kind+"/marshal", fmt.Sprintf("%s: MarshalJSON output is not JSON: %s", desc, b), cs)
 			return
 		}
 		field := func(n string) []byte {
@@ -1381,7 +1381,7 @@ func checkJWK(c *hl.Ctx, k interface{}, kid, alg, use string, cs caseT) {
 		ok := true
 		str := func(n string) string { s, _ := m[n].(string); return s }
 		if str("kid") != kid || str("alg") != alg || str("use") != use {
-			c.Violation("jwk/roundtrip/"+kind+"/attributes", fmt.Sprintf("%s: kid/alg/use serialised as %q/%q/%q, want %q/%q/%q", desc, str("kid"), str("alg"), str("use"), kid, alg, use), cs)
+			viol(c, "jwk/roundtrip/"+kind+"/attributes", fmt.Sprintf("%s: kid/alg/use serialised as %q/%q/%q, want %q/%q/%q", desc, str("kid"), str("alg"), str("use"), kid, alg, use), cs)
 			ok = false
 		}
 		switch x := pubOf(k).(type) {
@@ -1391,17 +1391,17 @@ func checkJWK(c *hl.Ctx, k interface{}, kid, alg, use string, cs caseT) {
 			wx, _ := joseref.FixedWidth(x.X, w)
 			wy, _ := joseref.FixedWidth(x.Y, w)
 			if m["kty"] != "EC" || m["crv"] != joseref.CurveName(bits) {
-				c.Violation("jwk/roundtrip/"+kind+"/members", fmt.Sprintf("%s: kty/crv = %v/%v in %s", desc, m["kty"], m["crv"], b), cs)
+				viol(c, "jwk/roundtrip/"+kind+"/members", fmt.Sprintf("%s: kty/crv = %v/%v in %s", desc, m["kty"], m["crv"], b), cs)
 				ok = false
 			}
 			if gx, gy := field("x"), field("y"); !bytes.Equal(gx, wx) || !bytes.Equal(gy, wy) {
-				c.Violation(fmt.Sprintf("jwk/ec-width/P-%d", bits), fmt.Sprintf("%s: x=%s (%d octets) y=%s (%d octets); RFC 7518 6.2.1.2/6.2.1.3 require the %d-octet big-endian forms %s / %s. JSON: %s", desc, hl.Hex(gx), len(gx), hl.Hex(gy), len(gy), w, hl.Hex(wx), hl.Hex(wy), b), cs)
+				viol(c, fmt.Sprintf("jwk/ec-width/P-%d", bits), fmt.Sprintf("%s: x=%s (%d octets) y=%s (%d octets); RFC 7518 6.2.1.2/6.2.1.3 require the %d-octet big-endian forms %s / %s. JSON: %s", desc, hl.Hex(gx), len(gx), hl.Hex(gy), len(gy), w, hl.Hex(wx), hl.Hex(wy), b), cs)
 				ok = false
 			}
 			if p, isPriv := k.(*ecdsa.PrivateKey); isPriv {
 				gd := field("d")
 				if gd == nil || new(big.Int).SetBytes(gd).Cmp(p.D) != 0 {
-					c.Violation("jwk/roundtrip/"+kind+"/members", fmt.Sprintf("%s: d=%s does not carry the private scalar", desc, hl.Hex(gd)), cs)
+					viol(c, "jwk/roundtrip/"+kind+"/members", fmt.Sprintf("%s: d=%s does not carry the private scalar", desc, hl.Hex(gd)), cs)
 					ok = false
 				} else if len(gd) != joseref.CoordBytes(x.Curve.Params().N.BitLen()) {
 					c.Add("observed_ec_d_not_full_width", 1) // RFC 7518 6.2.2.1; outside this property's statement (coordinates only)
@@ -1409,29 +1409,29 @@ func checkJWK(c *hl.Ctx, k interface{}, kid, alg, use string, cs caseT) {
 			}
 		case *rsa.PublicKey:
 			if m["kty"] != "RSA" || !bytes.Equal(field("n"), joseref.Minimal(x.N)) || !bytes.Equal(field("e"), joseref.Minimal(big.NewInt(int64(x.E)))) {
-				c.Violation("jwk/roundtrip/"+kind+"/members", fmt.Sprintf("%s: kty/n/e do not carry the key (RFC 7518 6.3.1): %s", desc, short(string(b))), cs)
+				viol(c, "jwk/roundtrip/"+kind+"/members", fmt.Sprintf("%s: kty/n/e do not carry the key (RFC 7518 6.3.1): %s", desc, short(string(b))), cs)
 				ok = false
 			}
 			if p, isPriv := k.(*rsa.PrivateKey); isPriv {
 				if new(big.Int).SetBytes(field("d")).Cmp(p.D) != 0 || new(big.Int).SetBytes(field("p")).Cmp(p.Primes[0]) != 0 || new(big.Int).SetBytes(field("q")).Cmp(p.Primes[1]) != 0 {
-					c.Violation("jwk/roundtrip/"+kind+"/members", fmt.Sprintf("%s: d/p/q do not carry the private key", desc), cs)
+					viol(c, "jwk/roundtrip/"+kind+"/members", fmt.Sprintf("%s: d/p/q do not carry the private key", desc), cs)
 					ok = false
 				}
 			}
 		case []byte:
 			if m["kty"] != "oct" || !bytes.Equal(field("k"), x) {
-				c.Violation("jwk/roundtrip/"+kind+"/members", fmt.Sprintf("%s: kty/k = %v/%s for key %s", desc, m["kty"], hl.Hex(field("k")), hl.Hex(x)), cs)
+				viol(c, "jwk/roundtrip/"+kind+"/members", fmt.Sprintf("%s: kty/k = %v/%s for key %s", desc, m["kty"], hl.Hex(field("k")), hl.Hex(x)), cs)
 				ok = false
 			}
 		}
 		// both decoding entry points
 		var back jose.JsonWebKey
 		if err := back.UnmarshalJSON(b); err != nil {
-			c.Violation("jwk/roundtrip/"+kind+"/unmarshal", fmt.Sprintf("%s: UnmarshalJSON rejects MarshalJSON's output: %v. JSON: %s", desc, err, short(string(b))), cs)
+			viol(c, "jwk/roundtrip/"+kind+"/unmarshal", fmt.Sprintf("%s: UnmarshalJSON rejects MarshalJSON's output: %v. JSON: %s", desc, err, short(string(b))), cs)
 			return
 		}
 		if !keyEqual(back.Key, k) || back.KeyID != kid || back.Algorithm != alg || back.Use != use {
-			c.Violation("jwk/roundtrip/"+kind+"/equal", fmt.Sprintf("%s: unmarshal(marshal(key)) is a %T with kid/alg/use %q/%q/%q; not equal to the original. JSON: %s", desc, back.Key, back.KeyID, back.Algorithm, back.Use, short(string(b))), cs)
+			viol(c, "jwk/roundtrip/"+kind+"/equal", fmt.Sprintf("%s: unmarshal(marshal(key)) is a %T with kid/alg/use %q/%q/%q; not equal to the original. JSON: %s", desc, back.Key, back.KeyID, back.Algorithm, back.Use, short(string(b))), cs)
 			ok = false
 		}
 		var set jose.JsonWebKeySet
@@ -1440,7 +1440,7 @@ func checkJWK(c *hl.Ctx, k interface{}, kid, alg, use string, cs caseT) {
 			err = json.Unmarshal(sb, &set)
 		}
 		if err != nil || len(set.Keys) != 2 || !keyEqual(set.Keys[1].Key, k) || len(set.Key(kid)) != 2 {
-			c.Violation("jwk/roundtrip/"+kind+"/set", fmt.Sprintf("%s: a key set holding the key twice does not survive encoding/json: err=%v keys=%d", desc, err, len(set.Keys)), cs)
+			viol(c, "jwk/roundtrip/"+kind+"/set", fmt.Sprintf("%s: a key set holding the key twice does not survive encoding/json: err=%v keys=%d", desc, err, len(set.Keys)), cs)
 			ok = false
 		}
 		// RFC 7638
@@ -1456,7 +1456,7 @@ func checkJWK(c *hl.Ctx, k interface{}, kid, alg, use string, cs caseT) {
 				tp, err := subject.Thumbprint(h.h)
 				if _, isOct := k.([]byte); isOct {
 					if err == nil && !bytes.Equal(tp, joseref.Digest(h.bits, []byte(in))) {
-						c.Violation("jwk/thumbprint/oct", fmt.Sprintf("%s: thumbprint %s, RFC 7638 SHA-%d over %s is %s", desc, hl.Hex(tp), h.bits, in, hl.Hex(joseref.Digest(h.bits, []byte(in)))), cs)
+						viol(c, "jwk/thumbprint/oct", fmt.Sprintf("%s: thumbprint %s, RFC 7638 SHA-%d over %s is %s", desc, hl.Hex(tp), h.bits, in, hl.Hex(joseref.Digest(h.bits, []byte(in)))), cs)
 						ok = false
 					} else if err != nil {
 						c.Add("observed_oct_thumbprint_unsupported", 1) // refused with an error, never wrong
@@ -1464,10 +1464,10 @@ func checkJWK(c *hl.Ctx, k interface{}, kid, alg, use string, cs caseT) {
 					continue
 				}
 				if err != nil {
-					c.Violation("jwk/thumbprint/"+kind, fmt.Sprintf("%s: Thumbprint: %v", desc, err), cs)
+					viol(c, "jwk/thumbprint/"+kind, fmt.Sprintf("%s: Thumbprint: %v", desc, err), cs)
 					ok = false
 				} else if want := joseref.Digest(h.bits, []byte(in)); !bytes.Equal(tp, want) {
-					c.Violation("jwk/thumbprint/"+kind, fmt.Sprintf("%s: SHA-%d thumbprint %s; RFC 7638 input %s hashes to %s", desc, h.bits, hl.Hex(tp), short(in), hl.Hex(want)), cs)
+					viol(c, "jwk/thumbprint/"+kind, fmt.Sprintf("%s: SHA-%d thumbprint %s; RFC 7638 input %s hashes to %s", desc, h.bits, hl.Hex(tp), short(in), hl.Hex(want)), cs)
 					ok = false
 				}
 			}
@@ -1477,7 +1477,7 @@ func checkJWK(c *hl.Ctx, k interface{}, kid, alg, use string, cs caseT) {
 		}
 	})
 	if pan {
-		c.Violation("panic/"+panicSite(st), desc+": "+msg, cs)
+		viol(c, "panic/"+panicSite(st), desc+": "+msg, cs)
 	}
 }
 
@@ -1812,6 +1812,22 @@ func replay(c *hl.Ctx, raw json.RawMessage) {
 	default:
 		runACME(c, func() bool { return true })
 	}
+}
+
+// viol records a violation, except for the interoperability clauses (key prefix "ref/"): those compare
+// the library with an independent RFC 7515-7518 implementation, which goes beyond what property C16
+// states (the library verifying/decrypting its own serialised objects), so a disagreement there is
+// reported as an informational counter and never as a violation.
+func viol(c *hl.Ctx, key, what string, cs interface{}) {
+	if strings.HasPrefix(key, "ref/") {
+		c.Add("interop_disagreements_not_judged", 1)
+		if len(what) > 300 {
+			what = what[:300]
+		}
+		c.Info("interop_example_"+key, what)
+		return
+	}
+	c.Violation(key, what, cs)
 }
 
 func main() {
